@@ -1,7 +1,9 @@
 (** C04 — closed-form syntactic lints fire exactly on their documented condition.  Statements only.
     Modelled and proved: divide_by_zero, compare_nan, suspicious_reverse_loop, empty_if, empty_loop,
-    unbalanced_assignments and the counting of mismatched_arg_count.  The other ten lints of the
-    property are covered by template verdicts in the correspondence run (testing, not proof). *)
+    unbalanced_assignments, mixed_table, duplicate_keys, parenthese_conditions, constant_table_comparison,
+    type_check_inside_call and the counting of mismatched_arg_count (12 of 17).  The other five lints
+    (if_same_then_else, ifs_same_cond, almost_swapped, bad_string_escape, multiple_statements) are covered by
+    template verdicts in the correspondence run (testing, not proof). *)
 From Selene Require Import Lints.Closed Lints.ClosedSpec.
 From Coq Require Import Lia.
 
@@ -81,3 +83,48 @@ Theorem C04_arg_count_vararg_never : forall ps1 t a,
   correct_num_args (params_count (ps1 ++ [PrmEllipsis t]) 0) (passed a) = true.
 Proof. exact arg_count_vararg_never. Qed.
 Print Assumptions C04_arg_count_vararg_never.
+
+(** table, condition and call lints *)
+Theorem C04_mixed_canonical : forall chunk fs,
+  In (NTable fs) (nodes_block chunk) ->
+  existsb is_nokey (fields_list fs) = true -> existsb (fun f => negb (is_nokey f)) (fields_list fs) = true ->
+  (1 <= n_mixed (lint_counts chunk))%nat.
+Proof. exact mixed_canonical. Qed.
+Print Assumptions C04_mixed_canonical.
+
+Theorem C04_mixed_sound : forall n, is_mixed n = true -> exists fs, n = NTable fs /\ existsb is_nokey (fields_list fs) = true /\
+  existsb (fun f => negb (is_nokey f)) (fields_list fs) = true.
+Proof. exact mixed_sound. Qed.
+Print Assumptions C04_mixed_sound.
+
+Theorem C04_dupkeys_sound : forall fs declared index,
+  no_dup_keys (field_keys fs index) declared = true -> dup_count fs declared index = 0%nat.
+Proof. exact dupkeys_sound. Qed.
+Print Assumptions C04_dupkeys_sound.
+
+Theorem C04_dupkeys_canonical : forall chunk a v1 v2 rest,
+  In (NTable (FsCons (FNameKey a v1) (FsCons (FNameKey a v2) rest))) (nodes_block chunk) ->
+  (1 <= n_dupkeys (lint_counts chunk))%nat.
+Proof. exact dupkeys_canonical. Qed.
+Print Assumptions C04_dupkeys_canonical.
+
+Theorem C04_paren_canonical : forall chunk c b eis els, In (NStmt (SIf (EParen c) b eis els)) (nodes_block chunk) ->
+  (1 <= n_paren (lint_counts chunk))%nat.
+Proof. exact paren_canonical. Qed.
+Print Assumptions C04_paren_canonical.
+
+Theorem C04_tablecmp_canonical : forall chunk o x fs, (o = "==" \/ o = "~=") ->
+  In (NExpr (EBinop o x (ETable fs))) (nodes_block chunk) -> (1 <= n_tablecmp (lint_counts chunk))%nat.
+Proof. exact tablecmp_canonical. Qed.
+Print Assumptions C04_tablecmp_canonical.
+
+Theorem C04_tablecmp_sound : forall n, is_table_comparison n = true ->
+  exists o l r, n = NExpr (EBinop o l r) /\ (is_table l = true \/ is_table r = true).
+Proof. exact tablecmp_sound. Qed.
+Print Assumptions C04_tablecmp_sound.
+
+Theorem C04_typecheck_canonical : forall chunk name x raw rest ss rng, t_name name = "type" ->
+  In (NCall (FCall (PName name) (SsCons (SfxCall (CAnon (AParens (EsCons (EBinop "==" x (EString raw)) rest)))) ss) rng)) (nodes_block chunk) ->
+  (1 <= n_typecheck (lint_counts chunk))%nat.
+Proof. exact typecheck_canonical. Qed.
+Print Assumptions C04_typecheck_canonical.
